@@ -173,7 +173,7 @@ def _stores_value(ctx, f, field_names=("self.value", "self.data")):
             cn = call_name(c) or ""
             if cn == "self.set" and c.args:
                 setter = f.cls.find_method("set")
-                if setter is not None and _set_always_stores(setter, c.args[0], f):
+                if setter is not None and _set_always_stores(setter, c.args[0], f, ctx):
                     stores.append(n)
             if isinstance(c.func, ast.Attribute) and c.func.attr == "decode" and norm(c.func.value).startswith("self.") and norm(c.func.value) != "self":
                 stores.append(n)  # delegation to a child that stores itself
@@ -186,21 +186,33 @@ def _stores_value(ctx, f, field_names=("self.value", "self.data")):
     return bool(stores) and not cfg.path_exists(cfg.entry, cfg.exit, avoid=stores, no_exc=True)
 
 
-def _set_always_stores(setter, arg_expr, caller) -> bool:
-    """set() returns without storing on `if value is None: return` - then the argument must never be None."""
-    cfg = cfg_of(setter.node)
-    p = setter.node.args.args[1].arg
-    stores = [n for n in cfg.real_nodes() if isinstance(n.ast, (ast.Assign,)) and any(dotted(t) in ("self.value", "self.data") for t in n.ast.targets)]
-    early = [n for n in cfg.real_nodes() if isinstance(n.ast, ast.Return) and cfg.path_exists(cfg.entry, n, avoid=stores, no_exc=True)]
-    for r in early:
-        conds = [(norm(t), v) for t, v in cfg.dominating_conditions(r)]
-        if (f"{p} is None", True) in conds:
-            # acceptable only if the caller never passes None
+def _set_always_stores(setter, arg_expr, caller, ctx=None) -> bool:
+    """Every normal path of set() stores the value; a path that leaves without storing is acceptable only under
+    `value is None` - and then the caller must never pass None.  Decided on the path summary of set() with its private
+    helpers (_set_list, ...) inlined."""
+    from .. import inline, normal, summary
+
+    fn, _ = normal.normalise(caller_repo(ctx), setter, comps=False, ifexp=False) if ctx is not None else (setter.node, [])
+    p = fn.args.args[1].arg
+    paths = summary.summarise(fn)
+    seen_store = False
+    for path in paths:
+        if path.kind == "raise":
+            continue
+        stores = [e for e, _ in summary.flat_effects(path.effects) if e[0] == "store" and e[1] in ("self.value", "self.data")]
+        if stores:
+            seen_store = True
+            continue
+        if (f"{p} is None", True) in path.conds:
             if _may_be_none(caller, arg_expr):
                 return False
-        else:
-            return False
-    return bool(stores)
+            continue
+        return False
+    return seen_store
+
+
+def caller_repo(ctx):
+    return ctx.repo
 
 
 def _may_be_none(f, expr) -> bool:
